@@ -100,7 +100,7 @@ func cmdVerify(args []string) {
 				fmt.Println("        model:", strings.Join(ns, " "))
 			}
 			if *dump != "" && strings.Contains(o.ID, *dump) {
-				fmt.Println(o.script(0))
+				fmt.Println(o.script(-1))
 			}
 		}
 	}
